@@ -30,7 +30,6 @@ PID = 'C18'
 CLAUSE = {'c1': 'no-complete-file', 'c2': 'name-truncated', 'two_steps': 'no-complete-file'}
 LINE = re.compile(r'^(?P<file>.*?):(?P<line>\d+): (?P<kind>info|error|warning): (?P<msg>.*)$')
 CLEAN = (1, 0, 0)
-CLSNAME = {0: 'absent', 1: 'complete', 2: 'truncated'}
 
 
 def enc(states):
@@ -483,8 +482,13 @@ def body(chk):
         derived = ' (derived: its pre-state has `name` truncated, i.e. clause (2) was violated by an earlier crash)' \
             if '(name truncated' in sig else ''
         tr.notes.append(f'signature {sig}{derived} from {len(where)} condition(s): {"; ".join(where[:6])}')
-    tr.notes.append(f'crosshair conditions: {len(results)} in {time.time() - t0:.0f}s wall; ' +
-                    '; '.join(f"{cfg_of(r)}={r['verdict']}({r['wall']:.0f}s)" for r in results))
+    tally = {}
+    for r in results:
+        k = (r['fn'], r['verdict'])
+        tally[k] = tally.get(k, 0) + 1
+    tr.notes.append(f'crosshair conditions: {len(results)} in {time.time() - t0:.0f}s wall (slowest {max(r["wall"] for r in results):.0f}s): ' +
+                    ', '.join(f'{fn} {v} x{c}' for (fn, v), c in sorted(tally.items())) + '; refuted non-twin: ' +
+                    ('; '.join(cfg_of(r) for r in results if r['verdict'] == 'refuted' and not r['fn'].endswith('_twin')) or 'none'))
 
 
 def do_replay(path):
